@@ -689,9 +689,6 @@ def _driver_case(case):
     uid = case["uid"]
     out = [f"subroutine drv_{uid}()",
            f"  use {uid}_alg_mod, only: {uid}_alg, state_type",
-           "  use field_mod, only: field_type, field_proxy_type",
-           "  use integer_field_mod, only: integer_field_type, "
-           "integer_field_proxy_type",
            # SAVE: no automatic finalisation at the end of the subroutine
            # (gfortran 12 crashes in the finaliser it generates for a
            # derived type with arrays of finalisable components)
@@ -700,29 +697,14 @@ def _driver_case(case):
            "  type(state_type), save :: state",
            "  real(r_def) :: ra, rb, s1, s2",
            "  integer(i_def) :: kn, idx, jdx",
-           "  type(field_proxy_type) :: prx",
-           "  type(integer_field_proxy_type) :: iprx",
-           "  integer :: i",
            f"  write(*,'(A,1X,A)') 'CASE', '{uid}'"]
     prints = []
     for ent, typ, group, _ in FIELDS:
         k = FIELD_ID[ent]
         spc = case["spaces"][group].lower()
-        label = re.sub(r"[^a-z0-9]", "_", ent)
-        prx = "prx" if typ == "rf" else "iprx"
-        conv = (f"real({k * 100} + mod(i, 7), r_def)" if typ == "rf"
-                else f"int({k * 100} + mod(i, 7), i_def)")
-        out += [f"  call {ent}%initialise(vector_space=fs_{spc}, "
-                f"name=\"{label}\")",
-                f"  {prx} = {ent}%get_proxy()",
-                f"  do i = 1, size({prx}%data)",
-                f"    {prx}%data(i) = {conv}",
-                "  end do"]
-        fmt = "(4(1X,ES25.17E3))" if typ == "rf" else "(8(1X,I0))"
-        prints += [f"  {prx} = {ent}%get_proxy()",
-                   f"  write(*,'(A,1X,A,1X,A,1X,I0)') 'F', '{uid}', "
-                   f"'{ent}', size({prx}%data)",
-                   f"  write(*,'{fmt}') {prx}%data"]
+        sfx = "r" if typ == "rf" else "i"
+        out.append(f"  call init_{sfx}({ent}, fs_{spc}, {k})")
+        prints.append(f"  call print_{sfx}('{uid}', '{ent}', {ent})")
     for var in REAL_SCALARS + RED_SCALARS:
         val = RED_INIT[var] if var in RED_INIT else int(case["scal"][var])
         out.append(f"  {var} = real({val}, r_def)")
@@ -741,13 +723,65 @@ def _driver_case(case):
     return "\n".join(out)
 
 
+_DRIVER_HELPERS = """\
+subroutine init_r(fld, fspace, k)
+  ! field number k: DoF d holds k*100 + mod(d, 7)
+  type(field_type), intent(inout) :: fld
+  type(function_space_type), pointer, intent(in) :: fspace
+  integer, intent(in) :: k
+  type(field_proxy_type) :: prx
+  integer :: i
+  call fld%initialise(vector_space=fspace, name="c24")
+  prx = fld%get_proxy()
+  do i = 1, size(prx%data)
+    prx%data(i) = real(k*100 + mod(i, 7), r_def)
+  end do
+end subroutine init_r
+subroutine init_i(fld, fspace, k)
+  type(integer_field_type), intent(inout) :: fld
+  type(function_space_type), pointer, intent(in) :: fspace
+  integer, intent(in) :: k
+  type(integer_field_proxy_type) :: prx
+  integer :: i
+  call fld%initialise(vector_space=fspace, name="c24")
+  prx = fld%get_proxy()
+  do i = 1, size(prx%data)
+    prx%data(i) = int(k*100 + mod(i, 7), i_def)
+  end do
+end subroutine init_i
+subroutine print_r(tag, name, fld)
+  character(len=*), intent(in) :: tag, name
+  type(field_type), intent(in) :: fld
+  type(field_proxy_type) :: prx
+  prx = fld%get_proxy()
+  write(*,'(A,1X,A,1X,A,1X,I0)') 'F', tag, name, size(prx%data)
+  write(*,'(4(1X,ES25.17E3))') prx%data
+end subroutine print_r
+subroutine print_i(tag, name, fld)
+  character(len=*), intent(in) :: tag, name
+  type(integer_field_type), intent(in) :: fld
+  type(integer_field_proxy_type) :: prx
+  prx = fld%get_proxy()
+  write(*,'(A,1X,A,1X,A,1X,I0)') 'F', tag, name, size(prx%data)
+  write(*,'(8(1X,I0))') prx%data
+end subroutine print_i"""
+
+
 def driver_source(cases):
     head = (rt._DRIVER_HEAD.replace("@NLAYERS@", "3")
             .replace("@ORDER@", "0"))
+    head = head.replace(
+        "  implicit none\n",
+        "  use field_mod, only: field_type, field_proxy_type\n"
+        "  use integer_field_mod, only: integer_field_type, "
+        "integer_field_proxy_type\n  implicit none\n", 1)
+    if "use field_mod" not in head:
+        raise HarnessError("lfric_rt driver template changed")
     lines = [head]
     for case in cases:
         lines.append(f"  call drv_{case['uid']}()")
-    lines += ["  write(*,'(A)') 'DRIVER-DONE'", "contains"]
+    lines += ["  write(*,'(A)') 'DRIVER-DONE'", "contains",
+              _DRIVER_HELPERS]
     for case in cases:
         lines.append(_driver_case(case))
     lines.append("end program lfric_driver")
